@@ -414,8 +414,31 @@ def check_table_after_use(case, stats):
         check_kw({"sub": "kw", "dialect": d, "cat": cat, "kw": kw, "mode": "default", "layout": 0}, Stats())
 
 
+def check_copied_matcher(case, stats):
+    """a configured matcher that was copied (copy.copy, copy.deepcopy, pickle round trip - a matcher sent to a worker process, kept in a cache)
+    recognises its dialect's keywords like the original, as default and after a header"""
+    import copy
+    import pickle
+    d, how = case["dialect"], case["how"]
+    D = DIALECTS[d]
+    stats.case((d, how), True, sample=case)
+    clone = {"copy": copy.copy, "deepcopy": copy.deepcopy, "pickle": lambda o: pickle.loads(pickle.dumps(o))}[how]
+    for header, base in ((False, d), (True, "en" if d != "en" else "fr")):
+        m = clone(gh.TokenMatcher(base))
+        for cat in STEP_CATS:
+            for kw in D[cat]:
+                text = ("# language: %s\n" % d if header else "") + "%s: f\n %s: s\n  %sx\n" % (D["feature"][-1], D["scenario"][-1], kw)
+                r = gh.parse(text, matcher=m)
+                want = expected_step(d, kw + "x")
+                steps = r[1]["feature"]["children"][0]["scenario"]["steps"] if r[0] == "ok" else []
+                if r[0] != "ok" or r[1]["feature"]["language"] != d or [(x["keyword"], x["keywordType"]) for x in steps] != [want]:
+                    raise Violation(case, "a %s of TokenMatcher(%r) on a %s document%s: %r, expected one step %r" % (
+                        how, base, d, " with header" if header else "", r[1][:2] if r[0] != "ok" else [(x["keyword"], x["keywordType"]) for x in steps], want))
+
+
 def unit_files(a):
     stats = Stats()
+    sweep(stats, [{"sub": "copied-matcher", "dialect": d, "how": h} for d in sorted(DIALECTS) for h in ("copy", "deepcopy", "pickle")], check_copied_matcher)
     sweep(stats, [{"sub": "files"}], check_files)
     sweep(stats, [{"sub": "table-after-use"}], check_table_after_use)
     sweep(stats, [{"sub": "locale", "env": {"LC_ALL": "C", "LANG": "C", "PYTHONUTF8": "0", "PYTHONCOERCECLOCALE": "0"}},
@@ -426,7 +449,7 @@ def unit_files(a):
 
 
 def replay(case, stats):
-    return {"kw": check_kw, "foreign": check_foreign, "pair": check_pair, "nearmiss": check_nearmiss, "header": check_header, "files": check_files, "table-after-use": check_table_after_use, "locale": check_locale}[case["sub"]](case, stats)
+    return {"kw": check_kw, "foreign": check_foreign, "pair": check_pair, "nearmiss": check_nearmiss, "header": check_header, "files": check_files, "table-after-use": check_table_after_use, "locale": check_locale, "copied-matcher": check_copied_matcher}[case["sub"]](case, stats)
 
 
 def run(ctx):
